@@ -293,6 +293,60 @@ def doStore (st : Directory.Store) (ops : List String) : String := Id.run do
     | some (s', o) => s := s'; outs := outs ++ [o]
   return join " | " outs
 
+/-! ### `cenc`: the specification-side client encoder (Spec.clientEncode), so that what a real go-ldap
+    client writes can be compared with what the C01 theorem quantifies over -/
+
+def parseCCtl : List String → Option Spec.CCtl
+  | ["str", o, c, v] => do pure (.generic (← unhex o) (← parseBool c) false (← unhex v))
+  | ["dsait", c] => do pure (.manageDsaIT (← parseBool c) false)
+  | ["paging", sz, ck] => do pure (.paging (← sz.toNat?) (← unhex ck))
+  | ["behera", "-1", "-1", "-1"] => some .beheraEmpty
+  | ["msnotif"] => some .msNotification
+  | ["msshowdel"] => some .msShowDeleted
+  | ["mslinkttl"] => some .msServerLinkTTL
+  | _ => none
+
+def parseCCtls (s : String) : Option (List Spec.CCtl) :=
+  if s == "-" then some [] else (splitNE s "/").mapM (fun d => parseCCtl (d.splitOn ","))
+
+def parseHexList (s : String) (sep : String) : Option (List Bytes) :=
+  if s == "" then some [] else (s.splitOn sep).mapM unhex
+
+def parseCChange (s : String) : Option Spec.CChange :=
+  match s.splitOn "~" with
+  | [op, ty, vs] => do pure ⟨← op.toInt?, ← unhex ty, ← parseHexList vs "."⟩
+  | _ => none
+
+def parseCAttr (s : String) : Option Spec.CAttr :=
+  match s.splitOn "~" with
+  | [ty, vs] => do pure ⟨← unhex ty, ← parseHexList vs "."⟩
+  | _ => none
+
+def parseCReq : List String → Option Spec.CReq
+  | ["bind", id, dn, pw, cs] => do pure (.bind (← id.toInt?) (← unhex dn) (← unhex pw) (← parseCCtls cs))
+  | ["search", id, base, sc, de, sz, tm, ty, f, attrs, cs] => do
+      let fb ← unhex f
+      let (fn, rest) ← readPacket extTrue fb
+      if !rest.isEmpty then none
+      pure (.search (← id.toInt?) (← unhex base) (← sc.toInt?) (← de.toInt?) (← sz.toInt?) (← tm.toInt?) (← parseBool ty) fn
+        (← if attrs == "-" then some [] else parseHexList attrs ",") (← parseCCtls cs))
+  | ["extended", id, name] => do pure (.extended (← id.toInt?) (← unhex name))
+  | ["modify", id, dn, chs, cs] => do
+      pure (.modify (← id.toInt?) (← unhex dn) (← if chs == "-" then some [] else (chs.splitOn "&").mapM parseCChange) (← parseCCtls cs))
+  | ["add", id, dn, ats, cs] => do
+      pure (.add (← id.toInt?) (← unhex dn) (← if ats == "-" then some [] else (ats.splitOn "&").mapM parseCAttr) (← parseCCtls cs))
+  | ["delete", id, dn, cs] => do pure (.delete (← id.toInt?) (← unhex dn) (← parseCCtls cs))
+  | ["unbind", id] => do pure (.unbind (← id.toInt?))
+  | _ => none
+
+def doCenc (toks : List String) : String :=
+  match toks with
+  | tt :: rest =>
+    (match tt.toNat?, parseCReq rest with
+     | some t, some r => if 0 < t ∧ t < 256 then hex (ser (Spec.clientEncode t.toUInt8 r)) else "bad-input"
+     | _, _ => "bad-input")
+  | [] => "bad-input"
+
 def handle (line : String) : String :=
   match (line.splitOn " ").filter (· ≠ "") with
   | ["ber", h] => match unhex h with
@@ -302,6 +356,7 @@ def handle (line : String) : String :=
     match unhex h, (if d == "!" then some none else (unhex d).map some) with
     | some bs, some dec => doDecode bs dec
     | _, _ => "bad-input"
+  | "cenc" :: rest => doCenc rest
   | "ctrlenc" :: rest => match parseControl rest with
     | some c => hex (ser (encodeControl c))
     | none => "bad-input"
